@@ -1543,10 +1543,16 @@ Definition call_builtin (env : nat) (b : bfn) (args : list val) (kwargs : kwargs
   end.
 
 (* evalFuncCall *)
+(* a Go built-in that hands back an error OBJECT (e.g. an element of `Either.values` fetched by Arr#at) has, for its
+   caller, raised that error: every caller tests the result with a type assertion to PanErr *)
+Definition raise_if_err (m : M val) : M val :=
+  v <- m ;;
+  match v with VErrObj k msg => raise k msg | _ => ret v end.
+
 Definition call_value (env : nat) (f : val) (args : list val) (kwargs : kwargs_t) : M val :=
   match f with
   | VFunc fid => call_clo fid args kwargs
-  | VBuiltin b => call_builtin env b args kwargs
+  | VBuiltin b => raise_if_err (call_builtin env b args kwargs)
   | _ => s <- insp f ;; tyerr (s ++ " is not callable.")
   end.
 
@@ -1556,7 +1562,7 @@ Definition call_prop (env : nat) (obj : val) (name : string) (args : list val) (
   match find_prop W st obj name with
   | None => ret vNil
   | Some (VFunc fid) => call_clo fid (obj :: args) kwargs
-  | Some (VBuiltin b) => call_builtin env b (obj :: args) kwargs
+  | Some (VBuiltin b) => raise_if_err (call_builtin env b (obj :: args) kwargs)
   | Some v => ret v
   end.
 
